@@ -253,7 +253,12 @@ def run(ctx, res):
                 res.fail('C01:cli:' + hx(src)[:60], '%s wrote no output (rc=%r/%r)' % (what, rc, rc2), {'source': hx(src)})
                 continue
             got = b''.join(gfile.from_file(path).lua.to_lines())
-            direct = M.minify([b''.join(g.lua.to_lines())], 'default')
+            given = b''.join(g.lua.to_lines())
+            if what == 'p8tool luamin':
+                # luamin minifies what the cart file holds (a .p8.png holds the code with every CR turned into a space: the reader's
+                # documented normalisation, C04)
+                given = b''.join(gfile.from_file(cart).lua.to_lines())
+            direct = M.minify([given], 'default')
             if got.rstrip(b'\n') != direct.rstrip(b'\n'):
                 res.fail('C01:cli:' + hx(src)[:60], '%s output differs from LuaMinifyTokenWriter on the same code (wiring)' % what,
                          {'source': hx(src)}, observed=hx(got)[:200], expected=hx(direct)[:200])
